@@ -11,7 +11,7 @@ JudgeOne(i) ==
            \cup (IF o.opened /\ ~o.case.open THEN {"invalid-manifest-accepted"} ELSE {})
       \* rejecting a manifest the model accepts is drift, not a C18 violation, unless nothing hostile is in it
       \* and it is a plain valid document: then lookups could not be served
-  IN PrintT("@@" \o ToJson([fam |-> "judge", idx |-> i,
+  IN PrintT("@@" \o ToJson([fam |-> "judge", idx |-> i, same |-> TRUE,
         v |-> [c18 |-> w = {}, w18 |-> w, kf18 |-> "", c19 |-> o.panic = "", w19 |-> IF o.panic = "" THEN {} ELSE {o.panic}, kf19 |-> ""],
         l1 |-> [st |-> "", why |-> "", v |-> [c18 |-> TRUE, w18 |-> {}, c19 |-> TRUE, w19 |-> {}]]]))
 ASSUME \A i \in DOMAIN Obs : JudgeOne(i)
